@@ -34,6 +34,7 @@ type resolved struct {
 	headAfter int
 	startSeq  uint64 // clock before the operation
 	endSeq    uint64 // clock after the operation (and quiescence)
+	snaps     bool   // snapshots enabled after the operation (reopen may change the configuration)
 }
 
 func (w *world) known(n *refNode) bool {
@@ -429,6 +430,13 @@ func (w *world) apply(op Op) (r resolved, v *simcore.Violation) {
 		if v = guard("Stop", func() *simcore.Violation { w.stopChain(); return nil }); v != nil {
 			return r, v
 		}
+		if op.B == 1 {
+			// the operator changes the configuration between two sessions
+			w.knobs.Snapshots = !w.knobs.Snapshots
+			note("snapshots enabled: %v", w.knobs.Snapshots)
+			r.desc += fmt.Sprintf(" with snapshots=%v", w.knobs.Snapshots)
+			w.res.Probe("restart-with-snapshot-config-changed")
+		}
 		if v = guard("reopen", func() *simcore.Violation {
 			if err := w.open(); err != nil {
 				return viol("clean-reopen-failed", "reopening after a clean Stop failed: %v", err)
@@ -519,6 +527,7 @@ func (w *world) apply(op Op) (r resolved, v *simcore.Violation) {
 	}
 	r.endSeq = w.clock.Now()
 	r.headAfter = w.headNode
+	r.snaps = w.knobs.Snapshots
 	// bookkeeping for the evidence
 	cur := w.bc.CurrentBlock()
 	if cur.Hash() != headBefore {
